@@ -157,8 +157,9 @@ static int pfx_sink_control(struct upipe *upipe, int command, va_list args)
         r->request = request; r->reqtype = request->type;
         switch (s->req_policy) {
         case PFX_REQ_HOLD:
-            ulist_add(&s->requests, urequest_to_uchain(request));
-            s->nrequests++;
+            /* keep a pointer, never link the request's own uchain: it sits in the upstream pipe's request list */
+            if (s->nrequests < PFX_MAX_LODGED) s->lodged[s->nrequests++] = request;
+            else pfx->overflow = true;
             return UBASE_ERR_NONE;
         case PFX_REQ_UNHANDLED:
             return UBASE_ERR_UNHANDLED;
@@ -170,11 +171,13 @@ static int pfx_sink_control(struct upipe *upipe, int command, va_list args)
         struct urequest *request = va_arg(args, struct urequest *);
         struct pfx_rec *r = pfx_log_rec(pfx, s->id, PFX_UNREGISTER);
         r->request = request; r->reqtype = request->type;
-        if (s->req_policy == PFX_REQ_HOLD) {
-            struct uchain *uchain, *tmp;
-            ulist_delete_foreach (&s->requests, uchain, tmp)
-                if (urequest_from_uchain(uchain) == request) { ulist_delete(uchain); s->nrequests--; break; }
-        }
+        if (s->req_policy == PFX_REQ_HOLD)
+            for (int i = 0; i < s->nrequests; i++)
+                if (s->lodged[i] == request) {
+                    for (; i + 1 < s->nrequests; i++) s->lodged[i] = s->lodged[i + 1];
+                    s->nrequests--;
+                    break;
+                }
         return UBASE_ERR_NONE;
     }
     default:
